@@ -734,7 +734,22 @@ class SeqMixin:
             return len(v)
         if isinstance(v, CSet):
             if not getattr(v, 'exact', True):
-                raise Unsupported('len of a set with symbolic elements')
+                # number of distinct values among possibly equal symbolic elements
+                items = v.items
+                total = 0
+                for i, x in enumerate(items):
+                    dup = False
+                    for y in items[:i]:
+                        e = self.truth_term(self.equals(x, y))
+                        if e is True:
+                            dup = True
+                            break
+                        if e is not False:
+                            dup = e if dup is False else z3.Or(zbool(dup), zbool(e))
+                    if dup is True:
+                        continue
+                    total = total + (1 if dup is False else z3.If(zbool(dup), 0, 1))
+                return concretize(total) if is_z3(total) else total
             return len(v.items)
         if isinstance(v, SList):
             return v.n
